@@ -10,7 +10,7 @@ import itertools
 
 from rdv import absint
 from rdv.absint import Cell, Interp, Unsupported, mk_option
-from rdv.core import CheckBroken, Origins, call_matches, callee_res, norm_path, strip_generics, term_has, term_str
+from rdv.core import CheckBroken, Origins, Pos, call_matches, callee_res, norm_path, strip_generics, term_has, term_str
 
 CONFIGS = ['default']
 LEVEL = 'proof'
@@ -427,6 +427,7 @@ def run(rep, facts, tier):
     rule_10_5(rep, fx)
 
     rule_10_7(rep, fx)
+    rule_10_8(rep, fx)
 
     # ------------------------------------------------------------ R10.6 crossed roles (shared lint, rdv/swaplint.py)
     from rdv import swaplint
@@ -520,3 +521,64 @@ def rule_10_7(rep, fx):
                     uses += 1
         rep.check(uses >= 2, 'R10.7', '%s/one-value' % short, 'the effective QoS reaches the RTPS endpoint and the DDS object (%d uses)' % uses,
                   '%s does not hand the same effective QoS to the RTPS endpoint (comparison) and to the DDS object (announcement): the two sides can reach different verdicts' % short, c.where())
+
+
+RXO_FIELDS = ('durability', 'presentation', 'deadline', 'latency_budget', 'ownership', 'liveliness', 'reliability', 'destination_order')
+
+
+def rule_10_8(rep, fx):
+    """Both sides reach the same verdict only if what an endpoint announces is what it compares with itself."""
+    rep.rule('R10.8', 'announcement = own QoS: the QosPolicies handed to SubscriptionBuiltinTopicData::new for a local reader is the reader\'s own qos_policy (the value its RTPS Reader '
+                      'compares offers with), the one handed to PublicationBuiltinTopicData::new_with_qos for a local writer is writer.qos(); both as plain views with no further '
+                      'call (no modify_by, no defaults merged in); and the two constructors copy each request/offered policy from the same-named field of that argument')
+    sites = (('discovery::discovery_db::DiscoveryDB::update_local_topic_reader', 'SubscriptionBuiltinTopicData::new', 'reader',
+              lambda t: t[0] == 'field' and t[1] == 'qos_policy' and t[2] == ('param', 4)),
+             ('discovery::sedp_messages::DiscoveredWriterData::new', 'PublicationBuiltinTopicData::new_with_qos', 'writer',
+              lambda t: t[0] == 'call' and t[1].endswith('::qos') and len(t[2]) == 1 and _plain(t[2][0]) == ('param', 1)))
+    for fn, ctor, what, pred in sites:
+        b = fx.find(fn)
+        rep.analysed(b)
+        og = Origins(b, transparent=False, summaries=False)
+        calls = [(bb, t) for bb, t in b.calls() if callee_res(t).endswith(ctor)]
+        ok = len(calls) == 1
+        shown = ''
+        if ok:
+            bb, t = calls[0]
+            qargs = []
+            for i, a in enumerate(t['args']):
+                if a.get('o') in ('copy', 'move') and 'QosPolicies' in str(b.locals[a['pl']['l']]):
+                    qargs.append(og.of_operand(a, bb, 'term'))
+            ok = len(qargs) == 1 and pred(_plain(qargs[0]))
+            shown = term_str(qargs[0])[:100] if qargs else 'no QosPolicies argument'
+        rep.check(ok, 'R10.8', '%s/announces-own-qos' % fn.rsplit('::', 1)[-1] if what == 'reader' else 'DiscoveredWriterData::new/announces-own-qos',
+                  'the %s\'s own QoS, unchanged' % what,
+                  '%s announces a QoS that is not the local %s\'s own QoS unchanged (%s): remote endpoints (and same-participant matching) judge compatibility on other values than '
+                  'the local %s does, so the two sides reach different verdicts' % (fn.rsplit('::', 1)[-1], what, shown, what), b.where(calls[0][0]) if calls else b.where())
+    for ty, cn in (('SubscriptionBuiltinTopicData', 'new'), ('PublicationBuiltinTopicData', 'new_with_qos')):
+        c = fx.find('discovery::sedp_messages::%s::%s' % (ty, cn))
+        sq = fx.find('discovery::sedp_messages::%s::set_qos' % ty)
+        rep.analysed(c, sq)
+        ogc = Origins(c, summaries=False)
+        qp = [i + 1 for i in range(c.j.get('argc', 0)) if 'QosPolicies' in str(c.locals[i + 1])]
+        calls = [(bb, t) for bb, t in c.calls() if callee_res(t).endswith('%s::set_qos' % ty)]
+        okc = len(qp) == 1 and len(calls) == 1 and _plain(ogc.of_operand(calls[0][1]['args'][1], calls[0][0], 'term')) == ('param', qp[0]) and \
+            all(Pos(c).every_path_passes(None, (r, 'term'), via_pos=[(calls[0][0], 'term')], from_entry=True) for r in c.return_blocks())
+        ogs = Origins(sq, summaries=False)
+        got = {}
+        for bb, si, st in sq.statements():
+            if st['s'] == 'assign':
+                names = [e.get('n') for e in (st['lhs'].get('p') or []) if isinstance(e, dict)]
+                if names and names[-1] in RXO_FIELDS and st['lhs']['l'] == 1:
+                    got.setdefault(names[-1], []).append(_plain(ogs._rvalue(st['rv'], bb, si, 0)))
+        bad = [f for f in RXO_FIELDS if got.get(f) != [('field', f, ('param', 2))]]
+        rep.check(okc and not bad, 'R10.8', '%s/copies-rxo-fields' % ty, 'new() applies set_qos(qos) on every path; set_qos stores each of the 8 RxO policies from qos.<same field>',
+                  '%s::new / set_qos do not copy every request/offered policy from the same-named field of the QoS argument (set_qos called with the argument on every path: %s; '
+                  'fields not copied one-to-one: %s)' % (ty, okc, bad), sq.where())
+
+
+def _plain(t):
+    while isinstance(t, tuple) and t and t[0] in ('ref', 'deref', 'copy', 'move') and len(t) > 1 and isinstance(t[1], tuple):
+        t = t[1]
+    if isinstance(t, tuple) and t and t[0] == 'field' and len(t) > 2:
+        return ('field', t[1], _plain(t[2]))
+    return t
